@@ -243,6 +243,16 @@ func (nl *NodeList) RemoveNodes(ids []string) {
 	}
 
 	nl.Nodes = newNodeList
+
+	// Root elements naming a removed node go away with it
+	newRootElements := []string{}
+	for _, id := range nl.RootElements {
+		if _, ok := idDict[id]; !ok {
+			newRootElements = append(newRootElements, id)
+		}
+	}
+	nl.RootElements = newRootElements
+
 	nl.cleanEdges()
 }
 
